@@ -123,9 +123,9 @@ Definition isblk (p : spc) : bool := match p with Blk _ => true | _ => false end
 Definition isres (p : spc) : bool := match p with ResWait _ _ _ => true | _ => false end.
 Definition sigk (p : spc) : Z := match p with SigLoop _ k | ResWait _ _ k => Z.max 0 k | _ => 0 end.
 
-Definition chg (g g' : sem_g) (v lo : Z) (q : list nat) (h : option nat) (a : nat -> agent_state)
+Definition chg (g g' : sem_g) (v lo md : Z) (q : list nat) (h : option nat) (a : nat -> agent_state)
            (p : list nat) (s : list (nat * Z)) : Prop :=
-  value g' = v /\ lower g' = lo /\ maxd g' = maxd g /\ queue g' = q /\ holder g' = h /\ ag g' = a /\
+  value g' = v /\ lower g' = lo /\ maxd g' = md /\ queue g' = q /\ holder g' = h /\ ag g' = a /\
   popped g' = p /\ sigl g' = s.
 
 Definition dec_of (o : sop) : option Z :=
@@ -138,51 +138,60 @@ Definition wk (p : spc) (c : wcond) (blk : bool) : Prop :=
   (p = Blk c /\ blk = false) \/ exists n, c = CAcq n /\ p = TSleep n.
 Definition renq (p : spc) : spc := match p with Blk c => Susp c | _ => p end.
 
-Definition sig_pre (g : sem_g) (l : sem_l) (k v1 lo1 : Z) (chk : bool) : Prop :=
-  (pc l = Idle /\ exists n, cur_op l = Release n /\ 0 <= n /\ k = n /\ v1 = value g + n /\ lo1 = lower g /\ chk = true) \/
-  (pc l = Idle /\ exists x, cur_op l = SlSignal x /\ k = Z.of_nat (length (queue g)) /\ v1 = value g /\
-                            lo1 = Z.max x (lower g) /\ chk = false) \/
-  (pc l = SigLoop chk k /\ v1 = value g /\ lo1 = lower g).
+(* new (lower_limit_, max_difference_) written by the first critical section of the sliding operations
+   that run the "touch upon all threads" loop *)
+Definition slsig_of (g : sem_g) (o : sop) : option (Z * Z) :=
+  match o with
+  | SlSignal x => Some (Z.max x (lower g), maxd g)
+  | SlSignalAll => Some (Z.max (lower g) (lower g), maxd g)
+  | SlSetMaxDiff md lo => Some (lo, md)
+  | _ => None
+  end.
+
+Definition sig_pre (g : sem_g) (l : sem_l) (k v1 lo1 md1 : Z) (chk : bool) : Prop :=
+  (pc l = Idle /\ exists n, cur_op l = Release n /\ 0 <= n /\ k = n /\ v1 = value g + n /\ lo1 = lower g /\ md1 = maxd g /\ chk = true) \/
+  (pc l = Idle /\ slsig_of g (cur_op l) = Some (lo1, md1) /\ k = Z.of_nat (length (queue g)) /\ v1 = value g /\ chk = false) \/
+  (pc l = SigLoop chk k /\ v1 = value g /\ lo1 = lower g /\ md1 = maxd g).
 
 Inductive eff (kind : nat -> akind) (t : nat) (g : sem_g) (l : sem_l) (g' : sem_g) (l' : sem_l) : Prop :=
 | E_stutter : g' = g -> l' = l -> eff kind t g l g' l'
 | E_stale w : pc l = Idle -> pc l' = Idle ->
-    chg g g' (value g) (lower g) (queue g) (holder g)
+    chg g g' (value g) (lower g) (maxd g) (queue g) (holder g)
         (match kind w with Task => upd (ag g) w (a_resume (ag g w)) | OsThr => ag g end) (popped g) (sigl g) ->
     eff kind t g l g' l'
 | E_idle d : pc l = Idle -> pc l' = Idle -> holder g = None -> (d = 0 \/ dec_of (cur_op l) = Some d) ->
-    chg g g' (value g - d) (lower g) (queue g) None (ag g) (popped g) (sigl g) -> eff kind t g l g' l'
+    chg g g' (value g - d) (lower g) (maxd g) (queue g) None (ag g) (popped g) (sigl g) -> eff kind t g l g' l'
 | E_enq c : pc l = Idle -> holder g = None -> enq_pc (pc l') c -> cond_blocked g c = true -> op_cond (cur_op l) c ->
-    chg g g' (value g) (lower g) (queue g ++ [t]) None (ag g) (popped g) (sigl g) -> eff kind t g l g' l'
+    chg g g' (value g) (lower g) (maxd g) (queue g ++ [t]) None (ag g) (popped g) (sigl g) -> eff kind t g l g' l'
 | E_susp c : pc l = Susp c -> pc l' = Blk c ->
-    chg g g' (value g) (lower g) (queue g) (holder g) (upd (ag g) t (fst (a_suspend (ag g t)))) (popped g) (sigl g) ->
+    chg g g' (value g) (lower g) (maxd g) (queue g) (holder g) (upd (ag g) t (fst (a_suspend (ag g t)))) (popped g) (sigl g) ->
     eff kind t g l g' l'
 | E_wtake c : wk (pc l) c (blocked (ag g t)) -> pc l' = Idle -> holder g = None -> cond_blocked g c = false ->
-    chg g g' (value g - taken_of c) (lower g) (rm t (queue g)) None (ag g) (rm t (popped g)) (sigl g) ->
+    chg g g' (value g - taken_of c) (lower g) (maxd g) (rm t (queue g)) None (ag g) (rm t (popped g)) (sigl g) ->
     eff kind t g l g' l'
 | E_timeout n : pc l = TSleep n -> pc l' = Idle -> holder g = None -> mem t (queue g) = true ->
-    chg g g' (value g) (lower g) (rm t (queue g)) None (ag g) (rm t (popped g)) (sigl g) -> eff kind t g l g' l'
+    chg g g' (value g) (lower g) (maxd g) (rm t (queue g)) None (ag g) (rm t (popped g)) (sigl g) -> eff kind t g l g' l'
 | E_wenq c : wk (pc l) c (blocked (ag g t)) -> pc l' = renq (pc l) -> holder g = None -> cond_blocked g c = true ->
-    chg g g' (value g) (lower g) (rm t (queue g) ++ [t]) None (ag g) (rm t (popped g)) (sigl g) ->
+    chg g g' (value g) (lower g) (maxd g) (rm t (queue g) ++ [t]) None (ag g) (rm t (popped g)) (sigl g) ->
     eff kind t g l g' l'
-| E_sfin k v1 lo1 chk : sig_pre g l k v1 lo1 chk -> holder g = None -> (k <= 0 \/ queue g = []) -> pc l' = Idle ->
-    chg g g' v1 lo1 (queue g) None (ag g) (popped g) (rm_sig t (sigl g)) -> eff kind t g l g' l'
-| E_scont k v1 lo1 chk w q' : sig_pre g l k v1 lo1 chk -> holder g = None -> 0 < k -> queue g = w :: q' -> q' <> [] ->
+| E_sfin k v1 lo1 md1 chk : sig_pre g l k v1 lo1 md1 chk -> holder g = None -> (k <= 0 \/ queue g = []) -> pc l' = Idle ->
+    chg g g' v1 lo1 md1 (queue g) None (ag g) (popped g) (rm_sig t (sigl g)) -> eff kind t g l g' l'
+| E_scont k v1 lo1 md1 chk w q' : sig_pre g l k v1 lo1 md1 chk -> holder g = None -> 0 < k -> queue g = w :: q' -> q' <> [] ->
     (kind w = Task \/ blocked (ag g w) = true) -> pc l' = SigLoop chk (k - 1) ->
-    chg g g' v1 lo1 q' None (upd (ag g) w (a_resume (ag g w))) (w :: popped g) ((t, k - 1) :: rm_sig t (sigl g)) ->
+    chg g g' v1 lo1 md1 q' None (upd (ag g) w (a_resume (ag g w))) (w :: popped g) ((t, k - 1) :: rm_sig t (sigl g)) ->
     eff kind t g l g' l'
-| E_sfin1 k v1 lo1 chk w : sig_pre g l k v1 lo1 chk -> holder g = None -> 0 < k -> queue g = [w] ->
+| E_sfin1 k v1 lo1 md1 chk w : sig_pre g l k v1 lo1 md1 chk -> holder g = None -> 0 < k -> queue g = [w] ->
     (kind w = Task \/ blocked (ag g w) = true) -> pc l' = Idle ->
-    chg g g' v1 lo1 [] None (upd (ag g) w (a_resume (ag g w))) (w :: popped g) (rm_sig t (sigl g)) ->
+    chg g g' v1 lo1 md1 [] None (upd (ag g) w (a_resume (ag g w))) (w :: popped g) (rm_sig t (sigl g)) ->
     eff kind t g l g' l'
-| E_shold k v1 lo1 chk w q' : sig_pre g l k v1 lo1 chk -> holder g = None -> 0 < k -> queue g = w :: q' ->
+| E_shold k v1 lo1 md1 chk w q' : sig_pre g l k v1 lo1 md1 chk -> holder g = None -> 0 < k -> queue g = w :: q' ->
     kind w = OsThr -> blocked (ag g w) = false -> pc l' = ResWait w chk (k - 1) ->
-    chg g g' v1 lo1 q' (Some t) (ag g) (w :: popped g) ((t, k - 1) :: rm_sig t (sigl g)) -> eff kind t g l g' l'
+    chg g g' v1 lo1 md1 q' (Some t) (ag g) (w :: popped g) ((t, k - 1) :: rm_sig t (sigl g)) -> eff kind t g l g' l'
 | E_rfin w chk k : pc l = ResWait w chk k -> blocked (ag g w) = true -> queue g = [] -> pc l' = Idle ->
-    chg g g' (value g) (lower g) [] None (upd (ag g) w (a_resume (ag g w))) (popped g) (rm_sig t (sigl g)) ->
+    chg g g' (value g) (lower g) (maxd g) [] None (upd (ag g) w (a_resume (ag g w))) (popped g) (rm_sig t (sigl g)) ->
     eff kind t g l g' l'
 | E_rcont w chk k : pc l = ResWait w chk k -> blocked (ag g w) = true -> queue g <> [] -> pc l' = SigLoop chk k ->
-    chg g g' (value g) (lower g) (queue g) None (upd (ag g) w (a_resume (ag g w))) (popped g) ((t, k) :: rm_sig t (sigl g)) ->
+    chg g g' (value g) (lower g) (maxd g) (queue g) None (upd (ag g) w (a_resume (ag g w))) (popped g) ((t, k) :: rm_sig t (sigl g)) ->
     eff kind t g l g' l'.
 
 Ltac chg_done := unfold chg; cbn; repeat split; try reflexivity; try lia; try assumption.
@@ -191,20 +200,20 @@ Lemma is_free_none g : is_free g = true -> holder g = None.
 Proof. unfold is_free. destruct (holder g); [discriminate|reflexivity]. Qed.
 
 Lemma finish_sig_eff kind t g g1 l k chk :
-  sig_pre g l k (value g1) (lower g1) chk -> holder g = None -> (k <= 0 \/ queue g = []) ->
-  maxd g1 = maxd g -> queue g1 = queue g -> holder g1 = None -> ag g1 = ag g -> popped g1 = popped g -> sigl g1 = sigl g ->
+  sig_pre g l k (value g1) (lower g1) (maxd g1) chk -> holder g = None -> (k <= 0 \/ queue g = []) ->
+  queue g1 = queue g -> holder g1 = None -> ag g1 = ag g -> popped g1 = popped g -> sigl g1 = sigl g ->
   eff kind t g l (fst (finish_sig t g1 l)) (snd (finish_sig t g1 l)).
 Proof.
-  intros Hp Hh Hk H1 H2 H3 H4 H5 H6. eapply E_sfin; eauto. unfold chg, finish_sig. cbn.
-  rewrite H1, H2, H3, H4, H5, H6. repeat split; reflexivity.
+  intros Hp Hh Hk H2 H3 H4 H5 H6. eapply E_sfin; eauto. unfold chg, finish_sig. cbn.
+  rewrite H2, H3, H4, H5, H6. repeat split; reflexivity.
 Qed.
 
 Lemma notify_eff kind t g g1 l k chk :
-  sig_pre g l k (value g1) (lower g1) chk -> holder g = None -> 0 <= value g1 ->
-  maxd g1 = maxd g -> queue g1 = queue g -> holder g1 = None -> ag g1 = ag g -> popped g1 = popped g -> sigl g1 = sigl g ->
+  sig_pre g l k (value g1) (lower g1) (maxd g1) chk -> holder g = None -> 0 <= value g1 ->
+  queue g1 = queue g -> holder g1 = None -> ag g1 = ag g -> popped g1 = popped g -> sigl g1 = sigl g ->
   eff kind t g l (fst (notify kind t g1 l chk k)) (snd (notify kind t g1 l chk k)).
 Proof.
-  intros Hp Hh Hv H1 H2 H3 H4 H5 H6. unfold notify.
+  intros Hp Hh Hv H2 H3 H4 H5 H6. unfold notify.
   assert (Hc : (negb chk || (0 <=? value g1)) = true).
   { apply orb_true_iff. right. now apply Z.leb_le. }
   rewrite Hc. cbn [andb]. destruct (0 <? k) eqn:Hk; zb.
@@ -214,13 +223,13 @@ Proof.
   destruct (kind w) eqn:Hkw.
   - (* task: resume at once *)
     unfold after_resume. cbn [queue set_ag set_popped set_queue]. destruct q' as [|w2 q2].
-    + unfold finish_sig. cbn [fst snd]. eapply E_sfin1; eauto. unfold chg. cbn. rewrite H1, H3, H4, H5, H6. repeat split; reflexivity.
-    + cbn [fst snd]. eapply E_scont; eauto; [discriminate|]. unfold chg. cbn. rewrite H1, H3, H4, H5, H6. repeat split; reflexivity.
+    + unfold finish_sig. cbn [fst snd]. eapply E_sfin1; eauto. unfold chg. cbn. rewrite H3, H4, H5, H6. repeat split; reflexivity.
+    + cbn [fst snd]. eapply E_scont; eauto; [discriminate|]. unfold chg. cbn. rewrite H3, H4, H5, H6. repeat split; reflexivity.
   - destruct (blocked (ag g1 w)) eqn:Hb; rewrite H4 in Hb.
     + unfold after_resume. cbn [queue set_ag set_popped set_queue]. destruct q' as [|w2 q2].
-      * unfold finish_sig. cbn [fst snd]. eapply E_sfin1; eauto. unfold chg. cbn. rewrite H1, H3, H4, H5, H6. repeat split; reflexivity.
-      * cbn [fst snd]. eapply E_scont; eauto; [discriminate|]. unfold chg. cbn. rewrite H1, H3, H4, H5, H6. repeat split; reflexivity.
-    + cbn [fst snd]. eapply E_shold; eauto. unfold chg. cbn. rewrite H1, H4, H5, H6. repeat split; reflexivity.
+      * unfold finish_sig. cbn [fst snd]. eapply E_sfin1; eauto. unfold chg. cbn. rewrite H3, H4, H5, H6. repeat split; reflexivity.
+      * cbn [fst snd]. eapply E_scont; eauto; [discriminate|]. unfold chg. cbn. rewrite H3, H4, H5, H6. repeat split; reflexivity.
+    + cbn [fst snd]. eapply E_shold; eauto. unfold chg. cbn. rewrite H4, H5, H6. repeat split; reflexivity.
 Qed.
 
 Lemma wait_or_take_idle_eff kind t g l c :
@@ -271,8 +280,12 @@ Proof.
       left. split; [assumption|]. exists n. cbn. repeat split; auto.
     + apply wait_or_take_idle_eff; auto; try (rewrite Hcur; cbn; auto).
     + destruct (cond_blocked g (CSl u)); cbn [fst snd]; eapply E_idle with (d := 0); eauto; chg_done.
-    + apply notify_eff with (g := g); auto; try reflexivity.
-      right. left. split; [assumption|]. exists lo. cbn. repeat split; auto.
+    + unfold sl_notify. apply notify_eff with (g := g); auto; try reflexivity.
+      right. left. split; [assumption|]. rewrite Hcur. cbn. repeat split; auto.
+    + unfold sl_notify. apply notify_eff with (g := g); auto; try reflexivity.
+      right. left. split; [assumption|]. rewrite Hcur. cbn. repeat split; auto.
+    + unfold sl_notify. apply notify_eff with (g := g); auto; try reflexivity.
+      right. left. split; [assumption|]. rewrite Hcur. cbn. repeat split; auto.
     + cbn [fst snd]. eapply E_stale with (w := w); eauto. destruct (kind w); chg_done.
   - (* Susp *)
     cbn [fst snd]. eapply E_susp; eauto. chg_done.
@@ -379,7 +392,7 @@ Ltac fr_auto HT u Hh :=
   cbn [hd_error]; rewrite ?Hh; try tauto; try (split; congruence);
   try (let R := fresh in intros R; apply (ti_hold _ _ _ _ (HT u)) in R; congruence).
 
-Lemma sig_pre_pc g l k v1 lo1 chk : sig_pre g l k v1 lo1 chk ->
+Lemma sig_pre_pc g l k v1 lo1 md1 chk : sig_pre g l k v1 lo1 md1 chk ->
   iswait (pc l) = false /\ isblk (pc l) = false /\ isres (pc l) = false /\ issusp (pc l) = false /\ sigk (pc l) <= Z.max 0 k.
 Proof. intros [[-> _]|[[-> _]|[-> _]]]; cbn; repeat split; lia. Qed.
 
@@ -390,8 +403,8 @@ Proof.
   intros HT He.
   destruct He as [Eg El | w Hpc Hpc' Ev | d Hpc Hpc' Hh Hd Ev | c Hpc Hh Hpc' Hcb Hop Ev | c Hpc Hpc' Ev
                  | c Hwk Hpc' Hh Hcb Ev | n Hpc Hpc' Hh Hm Ev | c Hwk Hpc' Hh Hcb Ev
-                 | k v1 lo1 chk Hsp Hh Hk Hpc' Ev | k v1 lo1 chk w q' Hsp Hh Hk Hq Hq' Hkw Hpc' Ev
-                 | k v1 lo1 chk w Hsp Hh Hk Hq Hkw Hpc' Ev | k v1 lo1 chk w q' Hsp Hh Hk Hq Hkw Hb Hpc' Ev
+                 | k v1 lo1 md1 chk Hsp Hh Hk Hpc' Ev | k v1 lo1 md1 chk w q' Hsp Hh Hk Hq Hq' Hkw Hpc' Ev
+                 | k v1 lo1 md1 chk w Hsp Hh Hk Hq Hkw Hpc' Ev | k v1 lo1 md1 chk w q' Hsp Hh Hk Hq Hkw Hb Hpc' Ev
                  | w chk k Hpc Hb Hq Hpc' Ev | w chk k Hpc Hb Hq Hpc' Ev ]; intros u.
   - (* stutter *)
     subst g' l'. destruct (Nat.eq_dec u t) as [->|N]; [rewrite upd_eq|rewrite upd_neq by auto]; apply HT.
@@ -439,12 +452,12 @@ Proof.
         ti_fin Ev; ti_auto.
     + rewrite upd_neq by auto. ti_frame HT g Ev; fr_auto HT u Hh.
   - (* signal: finish *)
-    destruct (sig_pre_pc _ _ _ _ _ _ Hsp) as (W1 & W2 & W3 & W4 & W5).
+    destruct (sig_pre_pc _ _ _ _ _ _ _ Hsp) as (W1 & W2 & W3 & W4 & W5).
     destruct (Nat.eq_dec u t) as [->|N].
     + rewrite upd_eq, Hpc'. t_pre HT t Hpc. rewrite W1, W2, W3, W4 in *. rewrite ?(target_none g Hh) in *. ti_fin Ev; ti_auto.
     + rewrite upd_neq by auto. ti_frame HT g Ev; fr_auto HT u Hh.
   - (* signal: pop resume continue *)
-    destruct (sig_pre_pc _ _ _ _ _ _ Hsp) as (W1 & W2 & W3 & W4 & W5).
+    destruct (sig_pre_pc _ _ _ _ _ _ _ Hsp) as (W1 & W2 & W3 & W4 & W5).
     assert (Nw : w <> t).
     { intros ->. destruct (HT t) as [c1 _ _ _ _ _ _ _ _]. rewrite W1, Hq, cnt_cons_same in c1. lia. }
     destruct (Nat.eq_dec u t) as [->|N]; [|destruct (Nat.eq_dec u w) as [->|N2]].
@@ -457,7 +470,7 @@ Proof.
         destruct (ag g w) as [[|] [|]]; cbn in *; ti_auto.
     + rewrite upd_neq by auto. ti_frame HT g Ev; fr_auto HT u Hh; rewrite Hq; simp_cnt; reflexivity.
   - (* signal: pop resume finish *)
-    destruct (sig_pre_pc _ _ _ _ _ _ Hsp) as (W1 & W2 & W3 & W4 & W5).
+    destruct (sig_pre_pc _ _ _ _ _ _ _ Hsp) as (W1 & W2 & W3 & W4 & W5).
     assert (Nw : w <> t).
     { intros ->. destruct (HT t) as [c1 _ _ _ _ _ _ _ _]. rewrite W1, Hq, cnt_cons_same in c1. lia. }
     destruct (Nat.eq_dec u t) as [->|N]; [|destruct (Nat.eq_dec u w) as [->|N2]].
@@ -470,7 +483,7 @@ Proof.
         destruct (ag g w) as [[|] [|]]; cbn in *; ti_auto.
     + rewrite upd_neq by auto. ti_frame HT g Ev; fr_auto HT u Hh; rewrite Hq; simp_cnt; reflexivity.
   - (* signal: pop, hold the lock inside default_agent::resume *)
-    destruct (sig_pre_pc _ _ _ _ _ _ Hsp) as (W1 & W2 & W3 & W4 & W5).
+    destruct (sig_pre_pc _ _ _ _ _ _ _ Hsp) as (W1 & W2 & W3 & W4 & W5).
     assert (Nw : w <> t).
     { intros ->. destruct (HT t) as [c1 _ _ _ _ _ _ _ _]. rewrite W1, Hq, cnt_cons_same in c1. lia. }
     destruct (Nat.eq_dec u t) as [->|N]; [|destruct (Nat.eq_dec u w) as [->|N2]].
@@ -520,7 +533,7 @@ Definition pub_op (o : sop) : Prop :=
   | Acquire n | TimedAcquire n => n = 1
   | TryWait n | Release n => 0 <= n
   | TryAcquire | StaleResume _ => True
-  | SlWait _ | SlTryWait _ | SlSignal _ => False
+  | SlWait _ | SlTryWait _ | SlSignal _ | SlSignalAll | SlSetMaxDiff _ _ => False
   end.
 
 Lemma pub_cur l : Forall pub_op (todo l) -> pub_op (cur_op l).
@@ -537,13 +550,13 @@ Proof.
   - destruct Hp as [Hc _]. rewrite Hc in Hpub. cbn in Hpub. now subst.
 Qed.
 
-Lemma pub_budget g l k v1 lo1 chk s :
-  pub_op (cur_op l) -> sig_pre g l k v1 lo1 chk -> 0 <= s <= sigk (pc l) ->
+Lemma pub_budget g l k v1 lo1 md1 chk s :
+  pub_op (cur_op l) -> sig_pre g l k v1 lo1 md1 chk -> 0 <= s <= sigk (pc l) ->
   v1 + s <= value g + Z.max 0 k.
 Proof.
-  intros Hpub [[Hpc [n (Hc & Hn & -> & -> & _)]]|[[Hpc [x (Hc & _)]]|[Hpc [-> _]]]] Hs; rewrite Hpc in Hs; cbn in Hs.
+  intros Hpub [[Hpc [n (Hc & Hn & -> & -> & _)]]|[[Hpc (Hc & _)]|[Hpc [-> _]]]] Hs; rewrite Hpc in Hs; cbn in Hs.
   - lia.
-  - rewrite Hc in Hpub. contradiction.
+  - destruct (cur_op l); cbn in Hpub, Hc; try contradiction; discriminate.
   - lia.
 Qed.
 
@@ -558,8 +571,8 @@ Proof.
   destruct (HT t) as [t1 t2 _ _ _ _ _ _ _].
   destruct He as [Eg El | w Hpc Hpc' Ev | d Hpc Hpc' Hh Hd Ev | c Hpc Hh Hpc' Hcb Hop Ev | c Hpc Hpc' Ev
                  | c Hwk Hpc' Hh Hcb Ev | n Hpc Hpc' Hh Hm Ev | c Hwk Hpc' Hh Hcb Ev
-                 | k v1 lo1 chk Hsp Hh Hk Hpc' Ev | k v1 lo1 chk w q' Hsp Hh Hk Hq Hq' Hkw Hpc' Ev
-                 | k v1 lo1 chk w Hsp Hh Hk Hq Hkw Hpc' Ev | k v1 lo1 chk w q' Hsp Hh Hk Hq Hkw Hb Hpc' Ev
+                 | k v1 lo1 md1 chk Hsp Hh Hk Hpc' Ev | k v1 lo1 md1 chk w q' Hsp Hh Hk Hq Hq' Hkw Hpc' Ev
+                 | k v1 lo1 md1 chk w Hsp Hh Hk Hq Hkw Hpc' Ev | k v1 lo1 md1 chk w q' Hsp Hh Hk Hq Hkw Hb Hpc' Ev
                  | w chk k Hpc Hb Hq Hpc' Ev | w chk k Hpc Hb Hq Hpc' Ev ];
     try (destruct Ev as (Ev & El & Em & Eq & Eh & Ea & Ep & Es); rewrite Ev, Eq, Ep, Es).
   - subst g'. exact HC.
@@ -580,13 +593,13 @@ Proof.
   - pose proof (mem_cnt _ _ Hm) as Hc. rewrite Hpc in t1. cbn in t1.
     destruct HC as [HC|HC]; [rewrite HC in Hm; discriminate|right]. lia.
   - assert (c = CAcq 1) by (eapply pub_wk; eauto). subst c. cbn in Hcb. zb. right. lia.
-  - destruct (sig_pre_pc _ _ _ _ _ _ Hsp) as (_ & _ & _ & _ & W5).
-    pose proof (pub_budget _ _ _ _ _ _ (sg t (sigl g)) Hpub Hsp ltac:(lia)) as Hbud.
+  - destruct (sig_pre_pc _ _ _ _ _ _ _ Hsp) as (_ & _ & _ & _ & W5).
+    pose proof (pub_budget _ _ _ _ _ _ _ (sg t (sigl g)) Hpub Hsp ltac:(lia)) as Hbud.
     destruct HC as [HC|HC]; [now left|]. destruct Hk as [Hk|Hk]; [right; lia|now left].
-  - pose proof (pub_budget _ _ _ _ _ _ (sg t (sigl g)) Hpub Hsp ltac:(lia)) as Hbud.
+  - pose proof (pub_budget _ _ _ _ _ _ _ (sg t (sigl g)) Hpub Hsp ltac:(lia)) as Hbud.
     destruct HC as [HC|HC]; [congruence|right]. cbn [tot snd length]. lia.
   - now left.
-  - pose proof (pub_budget _ _ _ _ _ _ (sg t (sigl g)) Hpub Hsp ltac:(lia)) as Hbud.
+  - pose proof (pub_budget _ _ _ _ _ _ _ (sg t (sigl g)) Hpub Hsp ltac:(lia)) as Hbud.
     destruct HC as [HC|HC]; [congruence|right]. cbn [tot snd length]. lia.
   - now left.
   - rewrite Hpc in t2. cbn in t2. destruct HC as [HC|HC]; [congruence|right]. cbn [tot snd]. lia.
@@ -655,12 +668,12 @@ Proof.
   pose proof (tot_nonneg (sigl g)) as Htn. pose proof (sg_nonneg t (sigl g)) as Hsn.
   pose proof (tot_rm t (sigl g)) as Htr. pose proof (tot_nonneg (rm_sig t (sigl g))) as Htn'.
   destruct (HT t) as [t1 t2 _ _ _ _ _ _ _].
-  assert (Hsig : forall k v1 lo1 chk, sig_pre g (ls t) k v1 lo1 chk -> lower g' = lo1 -> maxd g' = maxd g ->
+  assert (Hsig : forall k v1 lo1 md1 chk, sig_pre g (ls t) k v1 lo1 md1 chk -> lower g' = lo1 -> maxd g' = md1 ->
              satb g' (pc l') = false ->
              covered (fun u => satb g' (pc (upd ls t l' u)) = true) (queue g) (tot (sigl g) - sg t (sigl g) + Z.max 0 k)).
-  { intros k v1 lo1 chk Hsp El Em Hf.
-    destruct (sig_pre_pc _ _ _ _ _ _ Hsp) as (_ & _ & _ & _ & W5).
-    destruct Hsp as [[Hpc [n (Hc & Hn & -> & -> & -> & _)]]|[[Hpc [x (Hc & -> & _)]]|[Hpc [-> ->]]]].
+  { intros k v1 lo1 md1 chk Hsp El Em Hf.
+    destruct (sig_pre_pc _ _ _ _ _ _ _ Hsp) as (_ & _ & _ & _ & W5).
+    destruct Hsp as [[Hpc [n (Hc & Hn & -> & -> & -> & -> & _)]]|[[Hpc (Hc & -> & _)]|[Hpc (-> & -> & ->)]]].
     - eapply cov_mono; [|eapply cov_ext; [|exact HS]]; [lia|].
       apply sat_frame; auto. rewrite Hf. discriminate.
     - eapply cov_mono; [|apply cov_len]. lia.
@@ -668,8 +681,8 @@ Proof.
       apply sat_frame; auto. rewrite Hf. discriminate. }
   destruct He as [Eg El | w Hpc Hpc' Ev | d Hpc Hpc' Hh Hd Ev | c Hpc Hh Hpc' Hcb Hop Ev | c Hpc Hpc' Ev
                  | c Hwk Hpc' Hh Hcb Ev | n Hpc Hpc' Hh Hm Ev | c Hwk Hpc' Hh Hcb Ev
-                 | k v1 lo1 chk Hsp Hh Hk Hpc' Ev | k v1 lo1 chk w q' Hsp Hh Hk Hq Hq' Hkw Hpc' Ev
-                 | k v1 lo1 chk w Hsp Hh Hk Hq Hkw Hpc' Ev | k v1 lo1 chk w q' Hsp Hh Hk Hq Hkw Hb Hpc' Ev
+                 | k v1 lo1 md1 chk Hsp Hh Hk Hpc' Ev | k v1 lo1 md1 chk w q' Hsp Hh Hk Hq Hq' Hkw Hpc' Ev
+                 | k v1 lo1 md1 chk w Hsp Hh Hk Hq Hkw Hpc' Ev | k v1 lo1 md1 chk w q' Hsp Hh Hk Hq Hkw Hb Hpc' Ev
                  | w chk k Hpc Hb Hq Hpc' Ev | w chk k Hpc Hb Hq Hpc' Ev ];
     try (destruct Ev as (Ev & El & Em & Eq & Eh & Ea & Ep & Es); rewrite Eq, Es).
   - subst g' l'. eapply cov_ext; [|exact HS]. intros u. destruct (Nat.eq_dec u t) as [->|N]; [now rewrite upd_eq|now rewrite upd_neq by auto].
@@ -689,13 +702,13 @@ Proof.
     apply cov_app.
     + rewrite upd_eq, Hf. discriminate.
     + apply cov_rm. eapply cov_ext; [|exact HS]. apply sat_frame; auto. rewrite Hf. discriminate.
-  - specialize (Hsig _ _ _ _ Hsp El Em ltac:(rewrite Hpc'; reflexivity)).
+  - specialize (Hsig _ _ _ _ _ Hsp El Em ltac:(rewrite Hpc'; reflexivity)).
     destruct Hk as [Hk|Hk]; [|rewrite Hk; exact I].
     eapply cov_mono; [|exact Hsig]. lia.
-  - specialize (Hsig _ _ _ _ Hsp El Em ltac:(rewrite Hpc'; reflexivity)).
+  - specialize (Hsig _ _ _ _ _ Hsp El Em ltac:(rewrite Hpc'; reflexivity)).
     rewrite Hq in Hsig. destruct Hsig as [_ Hsig]. eapply cov_mono; [|exact Hsig]. cbn [tot snd]. lia.
   - exact I.
-  - specialize (Hsig _ _ _ _ Hsp El Em ltac:(rewrite Hpc'; reflexivity)).
+  - specialize (Hsig _ _ _ _ _ Hsp El Em ltac:(rewrite Hpc'; reflexivity)).
     rewrite Hq in Hsig. destruct Hsig as [_ Hsig]. eapply cov_mono; [|exact Hsig]. cbn [tot snd]. lia.
   - exact I.
   - rewrite Hpc in t2. cbn in t2. eapply cov_mono; [|eapply cov_ext; [|exact HS]]; [cbn [tot snd]; lia|].
@@ -709,7 +722,7 @@ Definition NT (kind : nat -> akind) (u : nat) (l : sem_l) : Prop := kind u = OsT
 Lemma todo_step kind o t g l :
   todo (snd (sem_tstep kind o t g l)) = todo l \/ todo (snd (sem_tstep kind o t g l)) = tl (todo l).
 Proof.
-  unfold sem_tstep, wait_or_take, fail_op, notify, after_resume, finish_sig.
+  unfold sem_tstep, sl_notify, wait_or_take, fail_op, notify, after_resume, finish_sig.
   destruct (pc l); [destruct (todo l) as [|[] ?] eqn:Htd| | |destruct o| |];
     repeat match goal with
            | |- context [if ?b then _ else _] => destruct b
@@ -839,7 +852,7 @@ Proof.
   destruct (pc l) as [|c|c|n|chk k|w chk k] eqn:Hpc.
   - destruct (todo l) as [|op rest] eqn:Htd; [now left|exfalso].
     apply (f_equal (fun r => (pc (snd r), length (todo (snd r))))) in H. cbv beta in H. cbn [snd] in H. rewrite Hpc, Htd in H.
-    unfold wait_or_take, fail_op, notify, after_resume, finish_sig in H.
+    unfold sl_notify, wait_or_take, fail_op, notify, after_resume, finish_sig in H.
     destruct op;
       repeat match type of H with
              | context [if ?b then _ else _] => destruct b
@@ -956,18 +969,18 @@ Theorem sliding_wait_progress kind sched v0 lo0 md progs :
   0 <= v0 -> wf_progs progs -> os_untimed kind progs ->
   let c := sem_run kind sched v0 lo0 md progs in
   stuck kind (fst c) (snd c) ->
-  (forall t u, waiting_for (snd c t) (CSl u) -> lower (fst c) < u - md) /\
-  (forall t, finished (snd c t) \/ exists w, pc (snd c t) = Blk w /\ forall u, w = CSl u -> lower (fst c) < u - md).
+  (forall t u, waiting_for (snd c t) (CSl u) -> lower (fst c) < u - maxd (fst c)) /\
+  (forall t, finished (snd c t) \/ exists w, pc (snd c t) = Blk w /\ forall u, w = CSl u -> lower (fst c) < u - maxd (fst c)).
 Proof.
   intros Hv Hwf Hos c St.
   pose proof (PI_run kind sched v0 lo0 md progs Hv Hwf Hos) as HP. fold c in HP.
   pose proof (stuck_shape _ _ _ _ _ _ HP St) as Hsh.
   pose proof (stuck_sigl _ _ _ _ _ _ HP St) as Hs.
-  assert (Hblk : forall t u, pc (snd c t) = Blk (CSl u) -> lower (fst c) < u - md).
+  assert (Hblk : forall t u, pc (snd c t) = Blk (CSl u) -> lower (fst c) < u - maxd (fst c)).
   { intros t u Hpc. pose proof (stuck_blocked_queued _ _ _ _ _ _ t _ HP St Hpc) as Hin.
     destruct HP as [Hg _ _ HS _]. unfold SI in HS. rewrite Hs in HS.
     pose proof (cov_zero _ _ _ HS ltac:(lia) t Hin) as Hns. cbv beta in Hns. rewrite Hpc in Hns. cbn in Hns.
-    rewrite (gi_md _ _ _ _ Hg) in Hns. destruct (u - md <=? lower (fst c)) eqn:E; [now elim Hns|]. zb. lia. }
+    destruct (u - maxd (fst c) <=? lower (fst c)) eqn:E; [now elim Hns|]. zb. lia. }
   split.
   - intros t u Hw. destruct (Hsh t) as [[Hpc _]|[c' [Hpc _]]].
     + destruct Hw as [Hw|[Hw|[n' [Hw _]]]]; congruence.
@@ -1037,4 +1050,91 @@ Proof.
   - cbv zeta. set (c := sem_run all_os _ 0 0 1 sl_progs). vm_compute in c. subst c. cbn [fst snd].
     split; [|repeat split; reflexivity].
     intros t o. destruct t as [|[|[|t]]]; destruct o; vm_compute; reflexivity.
+Qed.
+
+(* ------------------------------------------------------------------ set_max_difference / signal_all *)
+(* programs without set_max_difference: every schedule is quiet, so the lower limit never decreases
+   and max_difference keeps its value along the whole run (corollary of sliding_signal_monotone) *)
+Definition no_setmd (o : sop) : Prop := match o with SlSetMaxDiff _ _ => False | _ => True end.
+
+Lemma quiet_no_setmd kind s : forall c, (forall t, Forall no_setmd (todo (snd c t))) -> quiet kind s c.
+Proof.
+  induction s as [|[t o] s IH]; intros c Hc; [exact I|]. cbn [quiet fst]. split.
+  - intros [_ (md & lo & rest & Htd)]. specialize (Hc t). rewrite Htd in Hc. inversion Hc as [|? ? Hx _]. exact Hx.
+  - apply IH. intros u. destruct c as [g ls]. cbn [step fst snd] in *.
+    destruct (sem_tstep kind o t g (ls t)) as [g' l'] eqn:E. cbn [snd].
+    destruct (Nat.eq_dec u t) as [->|N]; [rewrite upd_eq|rewrite upd_neq by auto; apply Hc].
+    replace l' with (snd (sem_tstep kind o t g (ls t))) by (rewrite E; reflexivity).
+    apply todo_step_forall. apply Hc.
+Qed.
+
+Theorem sliding_signal_monotone_no_setmd kind s1 s2 c :
+  (forall t, Forall no_setmd (todo (snd c t))) ->
+  lower (fst (run (sem_tstep kind) s1 c)) <= lower (fst (run (sem_tstep kind) (s1 ++ s2) c)) /\
+  maxd (fst (run (sem_tstep kind) (s1 ++ s2) c)) = maxd (fst c).
+Proof.
+  intros Hc.
+  pose proof (sliding_signal_monotone kind [] (s1 ++ s2) c (quiet_no_setmd kind _ c Hc)) as [_ H0].
+  cbn [app run fold_left] in H0.
+  assert (Hq : quiet kind s2 (run (sem_tstep kind) s1 c)).
+  { apply quiet_no_setmd. intros t.
+    assert (G : forall s c0, (forall t, Forall no_setmd (todo (snd c0 t))) ->
+                forall t, Forall no_setmd (todo (snd (run (sem_tstep kind) s c0) t))).
+    { clear. induction s as [|[t o] s IH]; intros c0 H0; [exact H0|]. rewrite run_cons. apply IH.
+      intros u. destruct c0 as [g ls]. cbn [step fst snd] in *.
+      destruct (sem_tstep kind o t g (ls t)) as [g' l'] eqn:E. cbn [snd].
+      destruct (Nat.eq_dec u t) as [->|N]; [rewrite upd_eq|rewrite upd_neq by auto; apply H0].
+      replace l' with (snd (sem_tstep kind o t g (ls t))) by (rewrite E; reflexivity).
+      apply todo_step_forall. apply H0. }
+    apply G. exact Hc. }
+  destruct (sliding_signal_monotone kind s1 s2 c Hq) as [H1 _]. split; [exact H1|exact H0].
+Qed.
+
+(* the former counterexample ([SlWait 5] [SlSetMaxDiff 10 0], max_difference 1, lower 0): with the
+   repaired set_max_difference (it notifies like signal) the waiter is woken, re-tests 5 - 10 <= 0
+   and returns; before the repair the state after the first three steps was stuck with thread 0
+   blocked (replayed on the real code: c08_replay S 0 0 1 "S5;M10:0" 0,0,1) *)
+Definition smd_progs (t : nat) : list sop :=
+  match t with 0%nat => [SlWait 5] | 1%nat => [SlSetMaxDiff 10 0; SlSignalAll] | _ => [] end.
+
+Lemma set_max_difference_example :
+  wf_progs smd_progs /\ os_untimed all_os smd_progs /\
+  (let c := sem_run all_os [(0,false);(0,false);(1,false)]%nat 0 0 1 smd_progs in
+   is_blocked_thread c 0%nat = false /\ pc (snd c 0%nat) = Blk (CSl 5) /\ lower (fst c) = 0 /\ maxd (fst c) = 10 /\
+   popped (fst c) = [0%nat] /\ ~ stuck all_os (fst c) (snd c)) /\
+  (let c := sem_run all_os [(0,false);(0,false);(1,false);(0,false);(1,false)]%nat 0 0 1 smd_progs in
+   stuck all_os (fst c) (snd c) /\ finished (snd c 0%nat) /\ finished (snd c 1%nat) /\
+   map ev_op (slog (fst c)) = [SlSignalAll; SlWait 5; SlSetMaxDiff 10 0] /\
+   map ev_lower (slog (fst c)) = [0; 0; 0] /\ map ev_maxd (slog (fst c)) = [10; 10; 10]).
+Proof.
+  split; [|split; [|split]].
+  - intros t. destruct t as [|[|t]]; cbn; repeat constructor.
+  - intros t Hk. destruct t as [|[|t]]; cbn; repeat constructor; cbn; auto.
+  - cbv zeta. set (c := sem_run all_os _ 0 0 1 smd_progs). vm_compute in c. subst c. cbn [fst snd].
+    repeat split; try reflexivity.
+    intros St. specialize (St 0%nat false). vm_compute in St. discriminate.
+  - cbv zeta. set (c := sem_run all_os _ 0 0 1 smd_progs). vm_compute in c. subst c. cbn [fst snd].
+    split; [|repeat split; reflexivity].
+    intros t o. destruct t as [|[|t]]; destruct o; vm_compute; reflexivity.
+Qed.
+
+(* set_max_difference may LOWER the lower limit (the unguarded "lower never decreases" is false):
+   signal(7) then set_max_difference(2, 3) on sliding_semaphore(1, 0); a wait(6) that would have
+   passed before (6 - 1 <= 7) now blocks (6 - 2 > 3), try_wait(5) is still true (5 - 2 <= 3) *)
+Definition lowers_progs (t : nat) : list sop :=
+  match t with 0%nat => [SlSignal 7; SlSetMaxDiff 2 3; SlTryWait 5; SlWait 6] | _ => [] end.
+
+Lemma set_max_difference_lowers_example :
+  let c1 := sem_run all_os [(0,false)]%nat 0 0 1 lowers_progs in
+  let c2 := sem_run all_os [(0,false);(0,false)]%nat 0 0 1 lowers_progs in
+  let c := sem_run all_os [(0,false);(0,false);(0,false);(0,false);(0,false)]%nat 0 0 1 lowers_progs in
+  lower (fst c1) = 7 /\ maxd (fst c1) = 1 /\ lower (fst c2) = 3 /\ maxd (fst c2) = 2 /\
+  ~ quiet all_os [(0,false)]%nat c1 /\
+  stuck all_os (fst c) (snd c) /\ pc (snd c 0%nat) = Blk (CSl 6) /\ is_blocked_thread c 0%nat = true /\
+  map ev_res (slog (fst c)) = [true; true; true].
+Proof.
+  cbv zeta. repeat split; try (vm_compute; reflexivity).
+  - intros [H _]. apply H. split; [reflexivity|]. vm_compute. eauto.
+  - set (c := sem_run all_os _ 0 0 1 lowers_progs). vm_compute in c. subst c. cbn [fst snd].
+    intros t o. destruct t as [|t]; destruct o; vm_compute; reflexivity.
 Qed.
